@@ -203,6 +203,7 @@ func (s *JS) Dialect(comps *[]dialect.Prop) *dialect.Schema {
 // schema generation
 
 type jgen struct {
+	forceEmbed bool // object(..., true) always composes with allOf and its first member is a $ref
 	// refAllPrims: every primitive property/item (that is not wrapped in nullable) is a component used by $ref
 	refAllPrims bool
 	// aliasAllEmbeds: every allOf member given by $ref refers to an alias component (one or two steps from the object)
@@ -314,11 +315,11 @@ func (g *jgen) fields(depth, n int, used map[string]bool) []JM {
 func (g *jgen) object(depth int, allowEmbed bool) *JS {
 	o := &JS{Kind: "obj"}
 	used := map[string]bool{}
-	if allowEmbed && g.rng.Intn(2) == 0 {
+	if allowEmbed && (g.rng.Intn(2) == 0 || g.forceEmbed) {
 		// allOf with $ref members and inline groups, in random order
 		parts := 2 + g.rng.Intn(2)
 		for i := 0; i < parts; i++ {
-			if g.rng.Intn(2) == 0 {
+			if g.rng.Intn(2) == 0 || (g.forceEmbed && i == 0) {
 				e := &JS{Kind: "obj", Ref: g.name(), Alias: g.alias()}
 				if g.aliasAllEmbeds {
 					e.Alias = 1 + g.rng.Intn(2)
